@@ -301,4 +301,20 @@ PROPS = {
             "commands are sent one at a time (each followed by a sync), so interleaving with the runtime is limited to suspended futures against commands; value lanes, map lanes, effects, get / set / and_then / followed_by / suspend are covered, other lane kinds and downlink lifecycles are not (partial)",
         ],
     ),
+    "C05": dict(
+        coq_targets=["Props/C05.vo"],
+        harness=[dict(pkg="h_agent", bin="c05", cases={"quick": 400, "thorough": 4000},
+                      checkers=["corr", "oracle"], timeout=3000)],
+        allowed_axioms=[],
+        trusted_base=[
+            "a history is the merged log of the calls made on a recording NodePersistence (public trait) and of the frames read by the harness's remotes, in the order these happened on the single-threaded runtime; a frame is logged when the remote reads it (later than it was written), so the oracle's `persisted before published` is checked at the remote's side of the channel",
+            "a crash at a point of the log is realised by starting a fresh runtime + agent on a store holding the replay of the store operations up to that point (the recording store is deterministic); the first life is ended by dropping every task (or by a clean stop) only at its end",
+            "the real side is the whole stack: swimos_runtime's AgentRouteTask::run_agent_with_store (init task with store initialisers, read / write tasks) and swimos_agent's AgentModel with a derived lane model (persistent and transient value / map lanes, a value store and a map store fed by the lifecycle)",
+        ],
+        assumptions=[
+            "the write task is modelled abstractly (persist, queue, deliver or supersede); the theorems are about histories (`log_ok`) and about what a store replay restores; the tie to the code is that every observed history satisfies `log_ok`, the store ends with what the commands imply, and every restart shows the replayed state",
+            "crash points are prefixes of the observed log (after a store operation or after a frame was read); the synchronous stretch between persist_response and handle_event cannot be cut by dropping tasks, so the order inside it is covered by the model's theorem only",
+            "RocksDB and the in-memory store implementations are C13's subject; inactivity time-out is exercised only as a clean stop (partial)",
+        ],
+    ),
 }
